@@ -348,6 +348,8 @@ class MultiAgentProblem(  # type: ignore[misc]
                 self._update_problem_kind_fluent(fluent)
         for fluent in self.ma_environment.fluents:
             self._update_problem_kind_fluent(fluent)
+        for obj in self.all_objects:
+            self._update_problem_kind_type(obj.type)
         for ag in self.agents:
             self._update_agent_goal_kind(ag)
             for action in ag.actions:
